@@ -9,4 +9,4 @@ python3 tools/extract.py
 (cd lean && lake build BEI bei_driver)
 # translator + bridge theorems (generated code = model); a unit whose text is outside the translator's subset is skipped by the checks
 python3 tools/codegen.py
-(cd lean && lake build BEI.Bridge.Value BEI.Bridge.Events BEI.Bridge.Timer BEI.Bridge.Conditions BEI.Bridge.Tracker BEI.Bridge.ActionData BEI.Bridge.Modifiers BEI.Bridge.Refs BEI.Bridge.Merge BEI.Bridge.SourceC20 BEI.Bridge.SourceC03 BEI.Bridge.SourceC10 BEI.Bridge.SourceC11) || true
+(cd lean && lake build BEI.Bridge.Value BEI.Bridge.Events BEI.Bridge.Timer BEI.Bridge.Conditions BEI.Bridge.Tracker BEI.Bridge.ActionData BEI.Bridge.Modifiers BEI.Bridge.Refs BEI.Bridge.Merge BEI.Bridge.Loops BEI.Bridge.SourceC04 BEI.Bridge.SourceC12 BEI.Bridge.SourceC13 BEI.Bridge.SourceC18 BEI.Bridge.SourceC20 BEI.Bridge.SourceC03 BEI.Bridge.SourceC10 BEI.Bridge.SourceC11) || true
